@@ -152,7 +152,7 @@ Section FillClasses.
   (* the array consumes exactly as many plain numbers as the ranges ask for *)
   Lemma expand_exact (nums more : list (tok (T:=T))) e acc c :
     Forall (plain (T:=T)) nums -> Z.of_nat (List.length acc + List.length nums) = e ->
-    exists vals, expand (nums ++ more)%list (Some e) acc c = XOk (acc ++ vals)%list (c + List.length nums) /\
+    exists vals, expand S (nums ++ more)%list (Some e) acc c = XOk (acc ++ vals)%list (c + List.length nums) /\
                  vals = map (fun t => Some (tval t, tint t)) nums.
   Proof.
     revert acc c; induction nums as [|t nums IH]; intros acc c Hp Hlen.
